@@ -619,6 +619,9 @@ pub fn run_sweep(name: &str, tier: &str, chunk: u64, nchunks: u64, res: &mut Wor
                 pts.extend_from_slice(&big);
                 pts.sort();
                 pts.dedup();
+                // the key held a longer and a shorter value before: a size recorded for an earlier value must not leak
+                let _ = check_range(&mut ctx, l + 17, 0, 1);
+                let _ = check_range(&mut ctx, l / 2, 0, 1);
                 for &s in &pts {
                     for &e in &pts {
                         let f = check_range(&mut ctx, l, s, e);
